@@ -252,7 +252,7 @@ def run(res, ctx):
     known_ids = {k["id"] for k in known}
     known_hit = collections.Counter()
     corr = []
-    n = 400 if tier == "quick" else 5000
+    n = 400 if tier == "quick" else 25000
     done = 0
     first = True
     while done < n:
